@@ -293,6 +293,10 @@ def run_object(R, I, lens, classes, escapes, order, nested=False):
                 ks = [bytes(m.eval(c, model_completion=True).as_long() for c in k) for k in keys]
                 return {'kind': 'canon', 'keys': [k.decode('latin1') for k in ks], 'order': list(order), 'nested': nested}
             R.obligation(f'{label}: output equals the reference canonical form', list(s.pc) + [cond], eq_bytes(out, ref), decode=dec, group='object/equals-reference')
+            # vacuity witness (once per harness shape): the members can arrive in an order that differs from the sorted one
+            if perm != tuple(order) and not getattr(R, '_c11_reorder_seen', False):
+                ok, _ = R.reach(f'{label}: members arrive unsorted (the formatter has to re-order them)', list(s.pc) + [cond])
+                R._c11_reorder_seen = ok
     return len(done)
 
 def run_string(R, I, L, classes, escapes):
